@@ -574,6 +574,61 @@ func runC09(c *Ctx, w *World, r *Report) {
 			bad = "no a[k] & b[k+1] masking found"
 		}
 		r.Check(bad == "", "R-LASTBYTE", n, w.Pos(fn.Pos()), bad, "len(b)==1 -> 0; (a[len(b)-2] & b[len(b)-1]) vs b[len(b)-2]")
+		// ---- R-WHOLEBYTE: whole-byte comparisons stay in front of b's last payload byte
+		r.Rule("R-WHOLEBYTE", "CmpUpto: every whole-byte comparison of a slice of a with a slice of b (cmpBytes, bytes.Compare, bytes.Equal) compares byte positions j < min(len x, len y) only, and that minimum is at most len(b)-2: b's last payload byte b[len(b)-2] may be partial (its unused low bits are 0) and must only ever meet a's byte through the mask b[len(b)-1]; compared unmasked, a key that continues with 1-bits behind the bit string compares greater instead of equal")
+		badW := ""
+		ncmp := 0
+		root := func(v ssa.Value) ssa.Value {
+			for depth := 0; depth < 8; depth++ {
+				switch x := v.(type) {
+				case *ssa.Slice:
+					v = x.X
+					continue
+				case *ssa.ChangeType:
+					v = x.X
+					continue
+				}
+				break
+			}
+			return v
+		}
+		eachInstr(fn, func(ins ssa.Instruction) {
+			call, ok := ins.(*ssa.Call)
+			if !ok || len(call.Common().Args) != 2 {
+				return
+			}
+			nm := calleeName(call.Common())
+			if f := call.Common().StaticCallee(); !(f != nil && f == fns["bitstr.cmpBytes"]) && nm != "bytes.Compare" && nm != "bytes.Equal" {
+				return
+			}
+			x, y := call.Common().Args[0], call.Common().Args[1]
+			rx, ry := root(x), root(y)
+			if !(rx == ssa.Value(fn.Params[0]) && ry == ssa.Value(fn.Params[1]) || rx == ssa.Value(fn.Params[1]) && ry == ssa.Value(fn.Params[0])) {
+				return
+			}
+			ncmp++
+			okW := false
+			var seen []string
+			for _, side := range []ssa.Value{x, y} {
+				d := fa.lenOf(side, 0).Sub(lb).Add(linConst(2))
+				if d.IsConst() {
+					seen = append(seen, fmt.Sprint(d.K))
+					if d.K <= 0 {
+						okW = true
+					}
+					continue
+				}
+				bd := fa.BoundsAt(call.Block(), d)
+				seen = append(seen, bd.String())
+				if bd.HasHi && bd.Hi <= 0 {
+					okW = true
+				}
+			}
+			if !okW {
+				badW = fmt.Sprintf("the comparison at %s may reach b's last payload byte unmasked: neither operand is known to be at most len(b)-2 bytes long there (length - (len(b)-2) in %s)", w.InstrPos(call), strings.Join(seen, " / "))
+			}
+		})
+		r.Check(badW == "", "R-WHOLEBYTE", n, w.Pos(fn.Pos()), badW, fmt.Sprintf("%d whole-byte comparisons between a and b, each limited to positions < len(b)-2", ncmp))
 	}
 }
 
@@ -583,7 +638,7 @@ func init() {
 		Explain: "Structural necessary conditions of the bitstr order (DESIGN.md 5/C09): E0 unsafe-cast size rule (found defect D4 in StrCmpUpto), exact delegation StrCmpUpto -> CmpUpto on the string's own bytes, unit consistency (bits vs bytes) and rounding, New's encoding layout (lengths, copy range, one mask byte used twice, mask index), Len's formula, Cmp's equal/unequal-length split, CmpUpto's empty case and last-byte masking indexes.",
 		NotDec:  []string{"that byte-wise comparison of the masked encoding equals bit-wise lexicographic order (arithmetic/semantic argument)", "cmpBytes' short-slice loop vs bytes.Compare equivalence"},
 		Trusted: []string{"go/ssa + types.Sizes (gc)", "bytes.Compare"},
-		Quick:   []Config{cfgDefault}, Thorough: []Config{cfgDefault, cfg386, cfgArm64},
+		Quick:   []Config{cfgDefault, cfg386}, Thorough: []Config{cfgDefault, cfg386, cfgArm64},
 		Run: runC09,
 	})
 }
